@@ -313,10 +313,21 @@ class _ConfigParserDict(collections.OrderedDict):
     return super(_ConfigParserDict, self).__delitem__(key)
 
 
+class _VariablesFirstInterpolation(configparser.ExtendedInterpolation):
+  """${NAME} refers to the entry NAME of [Variables]; only when [Variables] has no such entry is it looked for
+  in the section the text belongs to (the stock class looks in the section first, so that a species 'Al' in
+  [EAM-Density] would hide a variable of the same name and then refer to itself)"""
+
+  def _interpolate_some(self, parser, option, accum, rest, section, map, depth):
+    if section != parser.default_section:
+      map = collections.ChainMap(parser.defaults(), map)
+    return super(_VariablesFirstInterpolation, self)._interpolate_some(parser, option, accum, rest, section, map, depth)
+
+
 class _RawConfigParser(configparser.RawConfigParser):
 
   def __init__(self):
-    super(_RawConfigParser, self).__init__(dict_type = _ConfigParserDict, default_section = "Variables", interpolation = configparser.ExtendedInterpolation())
+    super(_RawConfigParser, self).__init__(dict_type = _ConfigParserDict, default_section = "Variables", interpolation = _VariablesFirstInterpolation())
     self._sections = collections.OrderedDict()
 
   def optionxform(self, option):
